@@ -135,22 +135,14 @@ Print Assumptions C07_audit_classified.
 
 (* ---------- the environment is not an input ---------- *)
 
-(* the static tie: every use of an API that reads the process environment (os.Getenv, time.Now, time.Local,
-   os/user, os.Getwd, math/rand, go statements, ... -- the list is in gen/c07env.go) in non-test code is
-   covered by the hand-classified audit/envreads.json.  The full statement "none of them reaches the
-   output" is false today: one use is a recorded finding (os.Getwd returns $PWD) *)
-Theorem C07_env_audit_refuted : ~ env_audit_full.
-Proof. exact env_audit_refuted. Qed.
-Print Assumptions C07_env_audit_refuted.
-
-(* ... and everything else is classified: all classes known (none new/changed/unjustified), exactly one finding *)
-Theorem C07_env_audit_partial :
-  forallb env_class_known envread_classes = true
-  /\ N.of_nat (length envread_classes) = envread_count
-  /\ env_count_class 6 envread_classes = 1
-  /\ (60 <=? envread_files_scanned) = true.
-Proof. exact env_audit_partial. Qed.
-Print Assumptions C07_env_audit_partial.
+(* the regenerated list of environment reads (Gen/EnvReadAudit.v: os.Getenv, time.Now, os.Getwd, os/user,
+   math/rand, ... in non-test code, found on every run) is fully classified against the hand-classified
+   audit/envreads.json: every class known (none new / changed / unjustified), the announced length,
+   the scanner visited the source files, and NO use is a finding (class 6: reaches the output and is
+   neither tree nor arguments).  (Round 4 found one: os.Getwd returned $PWD; repaired by /repo 873c354.) *)
+Theorem C07_env_audit_classified : env_audit_full.
+Proof. exact env_audit_classified. Qed.
+Print Assumptions C07_env_audit_classified.
 
 (* util.go isLocallyModified, with the process environment (time zone, user, home, locale, cwd spelling,
    umask) as an explicit argument: the decision is the same in every environment *)
